@@ -87,6 +87,10 @@ def _int(eng: Any, v: Any = 0, base: Any = None) -> Any:
         if r is NotImplemented:
             r = eng.call_dunder(v, "__index__", [])
         return r
+    if hasattr(v, "pyvc_int"):
+        return v.pyvc_int(eng)
+    if type(v).__name__ == "SymFloatInt":
+        return v.to_int(eng)
     if isinstance(v, (SStr, SOpaque)):
         raise Unsupported("int() of symbolic string")
     try:
@@ -354,6 +358,13 @@ def _type(eng: Any, v: Any, *rest: Any) -> Any:
 
 @model(builtins.str)
 def _str(eng: Any, v: Any = "", *a: Any) -> Any:
+    if getattr(eng, "sym_strings", False) and not a:
+        from . import symstr
+
+        if isinstance(v, SInt):
+            return symstr.format_int(eng, v, "")
+        if isinstance(v, symstr.SymStr):
+            return v
     if eng.all_concrete(v) and not a:
         if eng.is_repo_object(v):
             eng.note_opaque_string()
@@ -373,9 +384,57 @@ def _repr(eng: Any, v: Any) -> Any:
 
 @model(builtins.format)
 def _format(eng: Any, v: Any, spec: Any = "") -> Any:
+    if getattr(eng, "sym_strings", False) and isinstance(v, SInt) and isinstance(spec, str):
+        from . import symstr
+
+        return symstr.format_int(eng, v, spec)
     if eng.all_concrete(v) and eng.all_concrete(spec) and not eng.is_repo_object(v):
         return format(v, spec)
     return OPAQUE_STR
+
+
+@model(builtins.ord)
+def _ord(eng: Any, c: Any) -> Any:
+    from . import symstr
+
+    if isinstance(c, symstr.SymStr):
+        if len(c.chars) != 1:
+            eng.raise_(TypeError, "ord() expected a character")
+        return symstr.code(c.chars[0])
+    return ord(c)
+
+
+@model(builtins.chr)
+def _chr(eng: Any, i: Any) -> Any:
+    from . import symstr
+
+    if isinstance(i, SInt):
+        if not eng.truth(sym.And(i >= 0, i <= symstr.MAX_CP)):
+            eng.raise_(ValueError, "chr() arg not in range(0x110000)")
+        return symstr.SymStr((i,))
+    return chr(i)
+
+
+class SymFloatInt:
+    """A float known to hold an exact integer (product of an int and a power of ten below 2**53): assumption A4."""
+
+    pyvc_model = True
+    pyvc_symbolic = True
+    pyvc_pytype = float
+
+    def __init__(self, value: Any) -> None:
+        self.value = value
+
+    def to_int(self, eng: Any) -> Any:
+        eng.oblige(abs(self.value) < 2**53, "A4.float-product-range", kind="assumption-range", site=eng.cur_site())
+        eng.assumptions_used.add("A4")
+        return self.value
+
+    def pyvc_binop(self, eng: Any, dn: str, other: Any, reflected: bool) -> Any:
+        raise Unsupported("float arithmetic")
+
+    def pyvc_compare(self, eng: Any, dn: str, other: Any, reflected: bool) -> Any:
+        raise Unsupported("float comparison")
 
 
 @model(builtins.print)
@@ -505,6 +564,8 @@ def _ov_item(eng: Any, cont: Any, key: Any) -> Any:
 
 
 def subscript(eng: Any, obj: Any, idx: Any) -> Any:
+    if eng.alias and id(obj) in eng.alias:
+        obj = eng.alias[id(obj)]
     if hasattr(obj, "pyvc_getitem"):
         return obj.pyvc_getitem(eng, idx)
     if isinstance(obj, SObj) or eng.is_repo_object(obj):
@@ -630,6 +691,8 @@ def _merge_table(eng: Any, pairs: list[tuple[Any, Any]], key: Any) -> Any:
 
 
 def store_subscript(eng: Any, obj: Any, idx: Any, v: Any) -> None:
+    if eng.alias and id(obj) in eng.alias:
+        obj = eng.alias[id(obj)]
     if hasattr(obj, "pyvc_setitem"):
         obj.pyvc_setitem(eng, idx, v)
         return
